@@ -50,6 +50,8 @@ def to_harness(c):
             L.append("repro louv %d %d %d %d %d" % tuple(cl[1:]))
         elif k == "repro_gnp":
             L.append("repro gnp %d %d %d %d %d" % tuple(cl[1:]))
+        elif k == "repro_cent":
+            L.append("repro cent %d" % cl[1])
     L.append("end")
     return "\n".join(L)
 
@@ -65,7 +67,7 @@ def modelled(c):
     if any(isinstance(e[2], float) for e in c["edges"]):
         return False
     for cl in c["calls"]:
-        if cl[0] == "repro_gnp":
+        if cl[0] in ("repro_gnp", "repro_cent"):
             return False
         if cl[0] in ("louv", "repro_louv") and cl[5] < 0:
             return False
@@ -354,6 +356,14 @@ class CommProp(props.BaseProp):
                 msgs += mod_segment_oracle(c, cl, seg, nodes, edges)
             elif cl[0] in ("louv", "repro_louv"):
                 msgs += louv_segment_oracle(c, cl, seg, nodes, edges, cl[0] == "repro_louv")
+            elif cl[0] == "repro_cent":
+                r = [o for o in seg if o[0] == 84]
+                if not r:
+                    msgs.append("centralities: no repeat observation")
+                elif r[0][1][0][:3] != [1, 1, 1]:
+                    msgs.append("closeness / betweenness of the same graph differ between calls / rebuilt copies / "
+                                "rayon pool sizes 1,4,16 (all returned %d, closeness equal %d, betweenness equal %d)"
+                                % tuple(r[0][1][0][:3]))
             elif cl[0] == "repro_gnp":
                 r = [o for o in seg if o[0] == 81]
                 if not r:
@@ -711,7 +721,7 @@ def fam_edges(kind, n):
     return []
 
 
-FAMS = ["path", "cycle", "complete", "star", "circ2", "grid", "cliques", "rand", "hubtwin", "hubtwin_dir", "w5"]
+FAMS = ["path", "cycle", "complete", "star", "circ2", "grid", "cliques", "rand", "hubtwin", "hubtwin_dir", "w5", "mring", "bigdir"]
 WTS = [0.1, 0.2, 0.3]
 
 
@@ -756,6 +766,27 @@ class C17Prop(CommProp):
             directed = 1 if r.below(5) < 2 else 0
             wmode = r.pick(["unw", "one", "idx", "sum", "rnd", "rnd"])
             edges = []
+            if kind == "bigdir":
+                # above the serial/parallel threshold: the non-randomised centralities must not depend on the pool size
+                nb = 22 + r.below(5)
+                es_b = [(j, (j + 1) % nb) for j in range(nb)] + [(r.below(nb), r.below(nb)) for _ in range(nb)]
+                edges_b = [(u, v, 1 + r.below(3), None) for (u, v) in es_b if u != v]
+                seen_b, edges_c = set(), []
+                for e in edges_b:
+                    if (e[0], e[1]) not in seen_b:
+                        seen_b.add((e[0], e[1]))
+                        edges_c.append(e)
+                cases.append({"id": "r%d" % i, "spec": (1, 0, 1, 0, 0, 0), "nodes": [(x, None) for x in r.shuffle(list(range(nb)))],
+                              "edges": edges_c, "calls": [("repro_cent", 1)]})
+                continue
+            multi = 0
+            if kind == "mring":
+                # a multigraph ring with doubled / tripled edges: Louvain collapses it first (to_single_edges)
+                nn = 8 + r.below(10)
+                multi, directed, wmode, es = 1, 0, "one", []
+                for j in range(nn):
+                    for _ in range(1 + r.below(3)):
+                        edges.append((j, (j + 1) % nn, 1 + r.below(2), None))
             if kind == "w5":
                 # a directed graph with inexact weights on which a node has several predecessors in one community and
                 # an equally good competing community: the in-edge weights must be folded in a fixed order
@@ -810,7 +841,7 @@ class C17Prop(CommProp):
                       0 if i % 16 == 5 else r.below(21))]
             if kind == "w5":
                 calls = [("repro_louv", 1, 1, 1, 0, sd) for sd in (1, 2, 3)]
-            cases.append({"id": "r%d" % i, "spec": (directed, 0, 1, 0, 0, 0), "nodes": nodes, "edges": edges,
+            cases.append({"id": "r%d" % i, "spec": (directed, multi, 1, 0, 0, 0), "nodes": nodes, "edges": edges,
                           "calls": calls})
         return cases
 
